@@ -84,7 +84,7 @@ def parse_strand(line):
 
 def parse_struct(line):
   """Parse structure statements"""
-  m = match(r"structure( \[([\w.]+)\])? ([\w-]+) = ([^:]*) : (.*)", line)
+  m = match(r"structure( \[([\w.+-]+)\])? ([\w-]+) = ([^:]*) : (.*)", line)
   if not m:
     error("Invalid structure statement format:\n"
           "Should be: structure <name> = <strand names> : <secondary structure>\n"
